@@ -496,7 +496,7 @@ package go_clipper2
 //@ spec prevPathIdx(i, pathLen int, isClosed bool) int = ite(i == 0, pathLen-1, i-1)
 
 //@ func ReversePath
-//@   props C08 C03
+//@   props C08 C03 C10 C05 C12
 //@   loop 0 invariant [rev] 0 <= i && i <= n && len(rp) == n && n == len(p) && forall(k, 0, i, same(rp[k], p[n-1-k]))
 //@   loop 0 decreases n - i
 //@   ensures [len] len(result) == len(p)
@@ -914,6 +914,14 @@ package go_clipper2
 //@   assumes co.deltaCallback == nil
 //@   loop 0 invariant [walk] 0 <= i && i <= cnt && cnt == len(path) && (cnt == 0 || (0 <= prev && prev < cnt)) && len(co.normals) == len(path) && co.deltaCallback == nil
 //@   ensures [normals-kept] len(co.normals) == len(path)
+
+//@ func ClipperOffset.offsetPolygon variant emits
+//@   props C05 C10
+//@   nosafety
+//@   opaque ClipperOffset.offsetPoint
+//@   requires group != nil && co.solution != nil
+//@   loop 0 step [every-vertex-is-offset-in-order] i == old(i) + 1
+//@   ensures [every-path-contributes-exactly-one-output-path-however-small-it-is] len(*co.solution) == old(len(*co.solution)) + 1
 
 //@ func ClipperOffset.offsetOpenJoined
 //@   props C03 C05 C10
@@ -2706,6 +2714,8 @@ package go_clipper2
 //@   opaque clipperBase.updateHorzSegment duplicateOp
 //@   loop 1.0 step [only-overlapping-segments-of-opposite-direction-are-joined] len(c.horzJoinList) != old(len(c.horzJoinList)) ==> (len(c.horzJoinList) == old(len(c.horzJoinList)) + 1 && old(c.horzSegList[j].leftToRight != hs1.leftToRight && c.horzSegList[j].leftOp.pt.X < hs1.rightOp.pt.X && c.horzSegList[j].rightOp.pt.X > hs1.leftOp.pt.X))
 //@   loop 1.0 step [pairs-are-tried-in-order] j == old(j) + 1
+//@   assert after call:duplicateOp#0 [the-first-join-point-is-copied-after-the-left-end-of-the-segment-that-heads-left-to-right] arg1 && ((hs1.leftToRight && arg0 == hs1.leftOp) || (!hs1.leftToRight && arg0 == hs2.leftOp))
+//@   assert after call:duplicateOp#1 [the-first-join-point-is-copied-after-the-left-end-of-the-segment-that-heads-left-to-right] arg1 && ((hs1.leftToRight && arg0 == hs1.leftOp) || (!hs1.leftToRight && arg0 == hs2.leftOp))
 
 // doHorizontal (C01, C09): a horizontal edge is crossed with the edges it passes, each at that edge's current X on
 // the horizontal's level, and it advances to that X; unless it ends at the maximum it is heading for, it never
@@ -2864,6 +2874,7 @@ package go_clipper2
 //@   assert after call:clipperBase.executeInternal#0 [the-sweep-for-a-tree-runs-in-tree-mode-and-runs-the-requested-operation] old(c.clipperBase.usingPolyTree) && arg0 == clipType && arg1 == fillRule
 //@   assert after call:clipperBase.buildTree#0 [the-callers-tree-is-filled] arg0 == polytree.PolyPathBase
 //@   assert after call:PolyTreeD.SetScale#0 [the-tree-reports-coordinates-at-the-engines-scale] arg0 == c.scale
+//@   ensures [the-tree-reports-coordinates-at-the-engines-scale-whatever-it-held-before] polytree.PolyPathBase.scale == c.scale
 //@   loop 0 invariant [open-paths-are-divided-by-the-scale-one-by-one] len(*openPaths) == _i && forall(k, 0, _i, same((*openPaths)[k], ScalePath64ToPathD(oPaths[k], c.invScale)))
 
 // isClockwise (C06, C13): between two opposite sides of the rectangle the turn is read off the exact sign of the
